@@ -11,8 +11,13 @@ import (
 func rd(p unsafe.Pointer) { vsched.Point(vsched.OpLoad, uintptr(p)) }
 func wr(p unsafe.Pointer) { vsched.Point(vsched.OpAtomic, uintptr(p)) }
 
+// post: a second point AFTER an atomic store took effect. A store publishes something; what the storing thread does
+// next with plain memory (clearing a field, reading a released object) must be interruptible right behind it, or a
+// "publish, then finish the job" window could never be entered by another thread.
+func post(p unsafe.Pointer) { vsched.Point(vsched.OpAtomic, uintptr(p)) }
+
 func LoadInt32(p *int32) int32          { rd(unsafe.Pointer(p)); return ra.LoadInt32(p) }
-func StoreInt32(p *int32, v int32)      { wr(unsafe.Pointer(p)); ra.StoreInt32(p, v) }
+func StoreInt32(p *int32, v int32)      { wr(unsafe.Pointer(p)); ra.StoreInt32(p, v); post(unsafe.Pointer(p)) }
 func AddInt32(p *int32, d int32) int32  { wr(unsafe.Pointer(p)); return ra.AddInt32(p, d) }
 func SwapInt32(p *int32, v int32) int32 { wr(unsafe.Pointer(p)); return ra.SwapInt32(p, v) }
 func CompareAndSwapInt32(p *int32, o, n int32) bool {
@@ -23,7 +28,7 @@ func CompareAndSwapInt32(p *int32, o, n int32) bool {
 type Int32 struct{ v ra.Int32 }
 
 func (x *Int32) Load() int32        { rd(unsafe.Pointer(x)); return x.v.Load() }
-func (x *Int32) Store(v int32)      { wr(unsafe.Pointer(x)); x.v.Store(v) }
+func (x *Int32) Store(v int32)      { wr(unsafe.Pointer(x)); x.v.Store(v); post(unsafe.Pointer(x)) }
 func (x *Int32) Add(d int32) int32  { wr(unsafe.Pointer(x)); return x.v.Add(d) }
 func (x *Int32) Swap(v int32) int32 { wr(unsafe.Pointer(x)); return x.v.Swap(v) }
 func (x *Int32) CompareAndSwap(o, n int32) bool {
@@ -32,7 +37,7 @@ func (x *Int32) CompareAndSwap(o, n int32) bool {
 }
 
 func LoadInt64(p *int64) int64          { rd(unsafe.Pointer(p)); return ra.LoadInt64(p) }
-func StoreInt64(p *int64, v int64)      { wr(unsafe.Pointer(p)); ra.StoreInt64(p, v) }
+func StoreInt64(p *int64, v int64)      { wr(unsafe.Pointer(p)); ra.StoreInt64(p, v); post(unsafe.Pointer(p)) }
 func AddInt64(p *int64, d int64) int64  { wr(unsafe.Pointer(p)); return ra.AddInt64(p, d) }
 func SwapInt64(p *int64, v int64) int64 { wr(unsafe.Pointer(p)); return ra.SwapInt64(p, v) }
 func CompareAndSwapInt64(p *int64, o, n int64) bool {
@@ -43,7 +48,7 @@ func CompareAndSwapInt64(p *int64, o, n int64) bool {
 type Int64 struct{ v ra.Int64 }
 
 func (x *Int64) Load() int64        { rd(unsafe.Pointer(x)); return x.v.Load() }
-func (x *Int64) Store(v int64)      { wr(unsafe.Pointer(x)); x.v.Store(v) }
+func (x *Int64) Store(v int64)      { wr(unsafe.Pointer(x)); x.v.Store(v); post(unsafe.Pointer(x)) }
 func (x *Int64) Add(d int64) int64  { wr(unsafe.Pointer(x)); return x.v.Add(d) }
 func (x *Int64) Swap(v int64) int64 { wr(unsafe.Pointer(x)); return x.v.Swap(v) }
 func (x *Int64) CompareAndSwap(o, n int64) bool {
@@ -52,7 +57,7 @@ func (x *Int64) CompareAndSwap(o, n int64) bool {
 }
 
 func LoadUint32(p *uint32) uint32           { rd(unsafe.Pointer(p)); return ra.LoadUint32(p) }
-func StoreUint32(p *uint32, v uint32)       { wr(unsafe.Pointer(p)); ra.StoreUint32(p, v) }
+func StoreUint32(p *uint32, v uint32)       { wr(unsafe.Pointer(p)); ra.StoreUint32(p, v); post(unsafe.Pointer(p)) }
 func AddUint32(p *uint32, d uint32) uint32  { wr(unsafe.Pointer(p)); return ra.AddUint32(p, d) }
 func SwapUint32(p *uint32, v uint32) uint32 { wr(unsafe.Pointer(p)); return ra.SwapUint32(p, v) }
 func CompareAndSwapUint32(p *uint32, o, n uint32) bool {
@@ -63,7 +68,7 @@ func CompareAndSwapUint32(p *uint32, o, n uint32) bool {
 type Uint32 struct{ v ra.Uint32 }
 
 func (x *Uint32) Load() uint32         { rd(unsafe.Pointer(x)); return x.v.Load() }
-func (x *Uint32) Store(v uint32)       { wr(unsafe.Pointer(x)); x.v.Store(v) }
+func (x *Uint32) Store(v uint32)       { wr(unsafe.Pointer(x)); x.v.Store(v); post(unsafe.Pointer(x)) }
 func (x *Uint32) Add(d uint32) uint32  { wr(unsafe.Pointer(x)); return x.v.Add(d) }
 func (x *Uint32) Swap(v uint32) uint32 { wr(unsafe.Pointer(x)); return x.v.Swap(v) }
 func (x *Uint32) CompareAndSwap(o, n uint32) bool {
@@ -72,7 +77,7 @@ func (x *Uint32) CompareAndSwap(o, n uint32) bool {
 }
 
 func LoadUint64(p *uint64) uint64           { rd(unsafe.Pointer(p)); return ra.LoadUint64(p) }
-func StoreUint64(p *uint64, v uint64)       { wr(unsafe.Pointer(p)); ra.StoreUint64(p, v) }
+func StoreUint64(p *uint64, v uint64)       { wr(unsafe.Pointer(p)); ra.StoreUint64(p, v); post(unsafe.Pointer(p)) }
 func AddUint64(p *uint64, d uint64) uint64  { wr(unsafe.Pointer(p)); return ra.AddUint64(p, d) }
 func SwapUint64(p *uint64, v uint64) uint64 { wr(unsafe.Pointer(p)); return ra.SwapUint64(p, v) }
 func CompareAndSwapUint64(p *uint64, o, n uint64) bool {
@@ -83,7 +88,7 @@ func CompareAndSwapUint64(p *uint64, o, n uint64) bool {
 type Uint64 struct{ v ra.Uint64 }
 
 func (x *Uint64) Load() uint64         { rd(unsafe.Pointer(x)); return x.v.Load() }
-func (x *Uint64) Store(v uint64)       { wr(unsafe.Pointer(x)); x.v.Store(v) }
+func (x *Uint64) Store(v uint64)       { wr(unsafe.Pointer(x)); x.v.Store(v); post(unsafe.Pointer(x)) }
 func (x *Uint64) Add(d uint64) uint64  { wr(unsafe.Pointer(x)); return x.v.Add(d) }
 func (x *Uint64) Swap(v uint64) uint64 { wr(unsafe.Pointer(x)); return x.v.Swap(v) }
 func (x *Uint64) CompareAndSwap(o, n uint64) bool {
@@ -92,7 +97,7 @@ func (x *Uint64) CompareAndSwap(o, n uint64) bool {
 }
 
 func LoadUintptr(p *uintptr) uintptr            { rd(unsafe.Pointer(p)); return ra.LoadUintptr(p) }
-func StoreUintptr(p *uintptr, v uintptr)        { wr(unsafe.Pointer(p)); ra.StoreUintptr(p, v) }
+func StoreUintptr(p *uintptr, v uintptr)        { wr(unsafe.Pointer(p)); ra.StoreUintptr(p, v); post(unsafe.Pointer(p)) }
 func AddUintptr(p *uintptr, d uintptr) uintptr  { wr(unsafe.Pointer(p)); return ra.AddUintptr(p, d) }
 func SwapUintptr(p *uintptr, v uintptr) uintptr { wr(unsafe.Pointer(p)); return ra.SwapUintptr(p, v) }
 func CompareAndSwapUintptr(p *uintptr, o, n uintptr) bool {
@@ -103,7 +108,7 @@ func CompareAndSwapUintptr(p *uintptr, o, n uintptr) bool {
 type Uintptr struct{ v ra.Uintptr }
 
 func (x *Uintptr) Load() uintptr          { rd(unsafe.Pointer(x)); return x.v.Load() }
-func (x *Uintptr) Store(v uintptr)        { wr(unsafe.Pointer(x)); x.v.Store(v) }
+func (x *Uintptr) Store(v uintptr)        { wr(unsafe.Pointer(x)); x.v.Store(v); post(unsafe.Pointer(x)) }
 func (x *Uintptr) Add(d uintptr) uintptr  { wr(unsafe.Pointer(x)); return x.v.Add(d) }
 func (x *Uintptr) Swap(v uintptr) uintptr { wr(unsafe.Pointer(x)); return x.v.Swap(v) }
 func (x *Uintptr) CompareAndSwap(o, n uintptr) bool {
@@ -112,7 +117,7 @@ func (x *Uintptr) CompareAndSwap(o, n uintptr) bool {
 }
 
 func LoadPointer(p *unsafe.Pointer) unsafe.Pointer     { rd(unsafe.Pointer(p)); return ra.LoadPointer(p) }
-func StorePointer(p *unsafe.Pointer, v unsafe.Pointer) { wr(unsafe.Pointer(p)); ra.StorePointer(p, v) }
+func StorePointer(p *unsafe.Pointer, v unsafe.Pointer) { wr(unsafe.Pointer(p)); ra.StorePointer(p, v); post(unsafe.Pointer(p)) }
 func SwapPointer(p *unsafe.Pointer, v unsafe.Pointer) unsafe.Pointer {
 	wr(unsafe.Pointer(p))
 	return ra.SwapPointer(p, v)
@@ -125,7 +130,7 @@ func CompareAndSwapPointer(p *unsafe.Pointer, o, n unsafe.Pointer) bool {
 type Bool struct{ v ra.Bool }
 
 func (b *Bool) Load() bool   { rd(unsafe.Pointer(b)); return b.v.Load() }
-func (b *Bool) Store(x bool) { wr(unsafe.Pointer(b)); b.v.Store(x) }
+func (b *Bool) Store(x bool) { wr(unsafe.Pointer(b)); b.v.Store(x); post(unsafe.Pointer(b)) }
 func (b *Bool) CompareAndSwap(o, n bool) bool {
 	wr(unsafe.Pointer(b))
 	return b.v.CompareAndSwap(o, n)
@@ -135,7 +140,7 @@ func (b *Bool) Swap(n bool) bool { wr(unsafe.Pointer(b)); return b.v.Swap(n) }
 type Pointer[T any] struct{ v ra.Pointer[T] }
 
 func (x *Pointer[T]) Load() *T   { rd(unsafe.Pointer(x)); return x.v.Load() }
-func (x *Pointer[T]) Store(v *T) { wr(unsafe.Pointer(x)); x.v.Store(v) }
+func (x *Pointer[T]) Store(v *T) { wr(unsafe.Pointer(x)); x.v.Store(v); post(unsafe.Pointer(x)) }
 func (x *Pointer[T]) Swap(v *T) *T {
 	wr(unsafe.Pointer(x))
 	return x.v.Swap(v)
@@ -148,7 +153,7 @@ func (x *Pointer[T]) CompareAndSwap(o, n *T) bool {
 type Value struct{ v ra.Value }
 
 func (x *Value) Load() any   { rd(unsafe.Pointer(x)); return x.v.Load() }
-func (x *Value) Store(v any) { wr(unsafe.Pointer(x)); x.v.Store(v) }
+func (x *Value) Store(v any) { wr(unsafe.Pointer(x)); x.v.Store(v); post(unsafe.Pointer(x)) }
 func (x *Value) Swap(v any) any {
 	wr(unsafe.Pointer(x))
 	return x.v.Swap(v)
